@@ -292,6 +292,25 @@ func c08Run(c *ev.Ctx) {
 						}
 					}
 				}
+				// sampled multi-byte corruptions: the stored checksum with its bytes permuted
+				// (swapped within the 16-bit sums, sums exchanged, reversed, rotated)
+				if len(enc) >= 4 {
+					ck := enc[len(enc)-4:]
+					for _, perm := range [][4]int{{1, 0, 3, 2}, {2, 3, 0, 1}, {3, 2, 1, 0}, {1, 2, 3, 0}, {3, 0, 1, 2}, {1, 0, 2, 3}, {0, 1, 3, 2}} {
+						bad := append([]byte(nil), enc...)
+						for i, j := range perm {
+							bad[len(enc)-4+i] = ck[j]
+						}
+						if bytes.Equal(bad, enc) {
+							continue
+						}
+						c.Evals(1)
+						c.Count("checksum_permutations_tried", 1)
+						if _, err := pl.Remove(bad); err == nil {
+							fail("corruption-undetected:writer-remove:checksum-permuted", map[string]any{"len": n, "perm": perm, "stored_checksum": fmt.Sprintf("%x", ck), "pipeline_sig": sig})
+						}
+					}
+				}
 			}
 		}
 	}
